@@ -275,8 +275,16 @@ pub fn metas() -> Vec<(String, syn::Meta)> {
             }
         }
     }
-    // invisible groups around a literal and around a path
-    for inner in ["5", "\"s\"", "a::b", "true"] {
+    // invisible groups around every value of the menu (one and two levels)
+    let values: Vec<String> = texts.iter().filter_map(|t| t.strip_prefix("v = ").map(|s| s.to_string())).collect();
+    for inner in values.iter().map(|s| s.as_str()) {
+        let Ok(e) = syn::parse_str::<syn::Expr>(inner) else { continue };
+        let g1 = syn::Expr::Group(syn::ExprGroup { attrs: vec![], group_token: Default::default(), expr: Box::new(e) });
+        let g2 = syn::Expr::Group(syn::ExprGroup { attrs: vec![], group_token: Default::default(), expr: Box::new(g1) });
+        let m = syn::Meta::NameValue(syn::MetaNameValue { path: syn::parse_str("v").unwrap(), eq_token: Default::default(), value: g2 });
+        out.push((format!("v = ⟦⟦{inner}⟧⟧"), m));
+    }
+    for inner in values.iter().map(|s| s.as_str()) {
         let e: syn::Expr = syn::parse_str(inner).unwrap();
         let g = syn::Expr::Group(syn::ExprGroup { attrs: vec![], group_token: Default::default(), expr: Box::new(e) });
         let m = syn::Meta::NameValue(syn::MetaNameValue { path: syn::parse_str("v").unwrap(), eq_token: Default::default(), value: g });
